@@ -167,8 +167,15 @@ def test_literals():
     check("string quote doubled", L(T("VARCHAR"), "it's"), "'it''s'")
     check("string backslash escaped", L(T("VARCHAR"), "a\\b"), "'a\\\\b'")
     check("string newline raw", L(T("VARCHAR"), "a\nb"), "'a\nb'")
-    for k, v in M.TEXT_VALUES:
+    BS, Q = chr(92), chr(39)
+    for k, v in M.values_for(T("VARCHAR")):
         check(f"string constant reads back ({k})", sf_unquote(L(T("VARCHAR"), v)), v)
+        check(f"string constant, backslash spelling of the quote, reads back ({k})", sf_unquote(L(T("VARCHAR"), v, bs=True)), v)
+        if Q in v:
+            check(f"the two spellings differ ({k})", L(T("VARCHAR"), v) != L(T("VARCHAR"), v, bs=True), True)
+    check("quote spelled with backslash", L(T("VARCHAR"), "it" + Q + "s $name", bs=True), Q + "it" + BS + Q + "s $name" + Q)
+    check("backslash then quote, backslash spelling", L(T("VARCHAR"), BS + Q, bs=True), Q + BS + BS + BS + Q + Q)
+    check("backslash then quote, doubled spelling", L(T("VARCHAR"), BS + Q), Q + BS + BS + Q + Q + Q)
     check("date", L(T("DATE"), dt.date(1, 1, 1)), "'0001-01-01'")
     check("time", L(T("TIME"), dt.time(23, 59, 59, 999999)), "'23:59:59.999999'")
     check("time zero fraction", L(T("TIME"), dt.time(0, 0, 0)), "'00:00:00.000000'")
@@ -346,10 +353,10 @@ def test_wp_result():
 
 # ---- 7. product structure ----------------------------------------------------------------------------------------
 def test_product():
-    check("paths", M.PATHS, ["lit", "pyformat", "qmark", "insert_select", "ctas", "clone", "wp", "wp_dbschema", "wp_subset", "wp_auto", "wp_opts"])
+    check("paths", M.PATHS, ["lit", "lit_bs", "pyformat", "qmark", "insert_select", "ctas", "clone", "wp", "wp_dbschema", "wp_subset", "wp_auto", "wp_opts"])
     A = M.allowed
     check("-0.0 not as SQL text", [A(T("FLOAT"), p, "neg_zero", -0.0) for p in M.PATHS],
-          [False, False, False, True, True, True, True, True, True, True, True])
+          [False, False, False, False, True, True, True, True, True, True, True, True])
     check("year 1 not via pyformat", A(T("DATE"), "pyformat", "year1", dt.date(1, 1, 1)), False)
     check("year 1 via literal", A(T("DATE"), "lit", "year1", dt.date(1, 1, 1)), True)
     check("tz not via qmark", M.type_applies(T("TIMESTAMP_TZ"), "qmark"), False)
@@ -389,6 +396,36 @@ def test_product():
     check("falsy JSON scalars are in the alphabet", {"json_false", "json_int", "json_empty_str", "json_null"} <= {k for k, _ in M.values_for(T("VARIANT"))}, True)
     check("no identity pairing of dict cells in one DataFrame column", [c for c in M.cells(T("VARIANT"), "wp", "thorough") if c["null"] == "after_identity"], [])
     check("identity pairing of JSON through SQL", [[v for _, v in c["rows"]] for c in M.cells(T("ARRAY"), "lit", "thorough") if c["null"] == "after_identity"], [["[]", '[1,[2,{"a":null}]]']])
+    # syntactically active sequences: every ordered pair is a text value of the SQL-text paths
+    BS, Q, NL = chr(92), chr(39), chr(10)
+    toks = dict(M.ACTIVE_TOKENS)
+    check("active tokens", sorted(toks.values()), sorted([Q, BS, "$name", "$1", "$$", "--", "/*", "*/", "%s", "%(x)s", "?", ":1", ";", NL]))
+    vv = dict(M.values_for(T("VARCHAR")))
+    for ka, a in M.ACTIVE_TOKENS:
+        for kb, b in M.ACTIVE_TOKENS:
+            check(f"pair {ka}+{kb} adjacent", vv.get(f"pair:{ka}+{kb}"), a + b)
+            check(f"pair {ka}+{kb} apart", vv.get(f"gap:{ka}+{kb}"), a + " x " + b)
+    check("pairs only where statement text is built from the value",
+          [p for p in M.PATHS if A(T("VARCHAR"), p, "pair:squote+dollar_name", Q + "$name")], ["lit", "lit_bs", "pyformat", "qmark"])
+    for p, n_quick in (("lit", 196), ("pyformat", 196), ("qmark", 196), ("lit_bs", 27)):
+        qs = {c["shape"] for c in M.cells(T("VARCHAR"), p, "quick") if c["shape"].startswith("pair:")}
+        check(f"quick {p}: every ordered pair (with a quote, for lit_bs)", len(qs), n_quick)
+        ts_ = {c["shape"] for c in M.cells(T("STRING"), p, "thorough") if M.is_pair_shape(c["shape"])}
+        check(f"thorough {p}: adjacent and apart, every unbounded text type", len(ts_), 2 * n_quick)
+    check("a pair value is written alone and twice around a NULL",
+          sorted({c["null"] for c in M.cells(T("VARCHAR"), "lit", "quick") if M.is_pair_shape(c["shape"])}), ["middle", "none"])
+    check("bounded text types carry no pairs", [k for k, _ in M.values_for(T("VARCHAR(3)")) if M.is_pair_shape(k)], [])
+    check("lit_bs only for values whose constant has a quote",
+          all(any(v is not None and Q in v for _, v in c["rows"]) for c in M.cells(T("VARCHAR"), "lit_bs", "thorough")), True)
+    check("lit_bs types", [t["sql"] for t in M.TYPES if M.type_applies(t, "lit_bs")], ["VARCHAR", "VARCHAR(300)", "VARCHAR(3)", "STRING", "TEXT", "CHAR", "VARIANT"])
+    check("lit_bs statement", M.build_insert(T("VARCHAR"), "T1", [(1, Q + "$name")], "lit_bs"), ("INSERT INTO T1 (ID, V) VALUES (1, " + Q + BS + Q + "$name" + Q + ")", None))
+    check("lit statement", M.build_insert(T("VARCHAR"), "T1", [(1, Q + "$name")], "lit"), ("INSERT INTO T1 (ID, V) VALUES (1, " + Q * 3 + "$name" + Q + ")", None))
+    jv = dict(M.values_for(T("VARIANT")))["json_str_squote"]
+    check("json string with a quote and a $name", json.loads(jv), "it" + Q + "s $name")
+    check("json lit_bs statement", M.build_insert(T("VARIANT"), "T1", [(1, jv)], "lit_bs")[0],
+          "INSERT INTO T1 (ID, V) SELECT 1, PARSE_JSON(" + Q + '"it' + BS + Q + 's $name"' + Q + ")")
+    check("session states", M.SESSION_STATES, ["pristine", "used"])
+    check("session variable names occur in the values", [any(("$" + n) in v or ("(" + n + ")") in v for _, v in M.ACTIVE_TOKENS) for n, _ in M.SESSION_VARIABLES], [True, True])
     # write_pandas options
     oc = M.opts_cells(T("NUMBER"))
     check("option product", len(oc), 6 * 5 * 2 * 2)
